@@ -38,10 +38,10 @@ def scenario_for(mod, prop, seed, idx, directed):
   return scn
 
 
-def write_replay(prop, scn, viol, minimised_from=None):
+def write_replay(prop, scn, viol, minimised_from=None, suffix=""):
   os.makedirs(REPLAY_DIR, exist_ok=True)
   h = hashlib.sha256(viol["sig"].encode()).hexdigest()[:12]
-  path = os.path.join(REPLAY_DIR, "%s-%s.json" % (prop, h))
+  path = os.path.join(REPLAY_DIR, "%s-%s%s.json" % (prop, h, suffix))
   doc = dict(scn)
   doc["property"] = prop
   doc["violation"] = viol
@@ -64,6 +64,11 @@ def handle_violation(mod, prop, scn, res, known, min_budget):
     return any(v["sig"] == target for v in r["violations"])
 
   n0 = len(scn["ops"])
+  # the unminimised scenario is kept too: if the code under test leaks state
+  # across executions in one process (a module-level cache, say), candidates
+  # accepted during minimisation may only fail because of earlier executions,
+  # and the minimised file then does not replay in a fresh interpreter
+  orig_path = write_replay(prop, scn, viol, None, ".w%d.orig" % os.getpid())
   cut = dict(scn)
   if 0 <= viol["step"] < n0:
     cut["ops"] = scn["ops"][:viol["step"] + 1]
@@ -74,7 +79,7 @@ def handle_violation(mod, prop, scn, res, known, min_budget):
   v2 = [v for v in r["violations"] if v["sig"] == target]
   if not v2:
     small, v2 = scn, [viol]
-  return write_replay(prop, small, v2[0], n0), len(small["ops"])
+  return write_replay(prop, small, v2[0], n0), len(small["ops"]), orig_path
 
 
 def cmd_run(a):
@@ -128,13 +133,14 @@ def cmd_run(a):
         seen_sigs.add(v["sig"])
         faulthandler.dump_traceback_later(a.run_timeout * 20, exit=True)
         try:
-          path, nmin = handle_violation(mod, a.prop, scn, res, known,
-                                        a.min_budget)
+          path, nmin, opath = handle_violation(mod, a.prop, scn, res, known,
+                                               a.min_budget)
         finally:
           faulthandler.cancel_dump_traceback_later()
         rec["violations"].append({"sig": v["sig"], "msg": v["msg"],
                                   "step": v["step"], "replay": path,
-                                  "min_ops": nmin})
+                                  "replay_orig": opath, "min_ops": nmin,
+                                  "orig_ops": len(scn["ops"])})
       else:
         rec["violations"].append({"sig": v["sig"], "msg": v["msg"],
                                   "step": v["step"], "replay": None})
